@@ -169,15 +169,6 @@ Definition op_fn (op nargs : N) : option (M vcell) :=
   | _ => None
   end.
 
-(* the CALL of a builtin: the arguments pushed left to right, then argc (run.rs) *)
-Fixpoint push_all (l : list vcell) : M unit :=
-  match l with
-  | [] => ret tt
-  | v :: r => dom _ <- push v; push_all r
-  end.
-Definition run_builtin (f : M vcell) (args : list vcell) : M vcell :=
-  dom _ <- push_all args; dom _ <- push (VArgc (len args)); f.
-
 (* a constant of the expression placed in the heap (Heap::maybe_put_cell) *)
 Definition put_datum (c : cell) : M vcell := fun s =>
   match maybe_put_cell (hp s) (st s) c with
